@@ -1517,3 +1517,22 @@ T('lock-refused-timeout-is-logged', ['C12', 'C02'],
 B('bat-dispatcher-supervises-its-batches', ['C04', 'C09'], ['C04-B8', 'C09-R5'],
   (A, "        while True:\n            tasks = await self._get_next_batch()\n            # Don't wait for the current batch to finish\n            self._daemon_task(  # noqa\n                self._process_batch(tasks),\n                name=\"async-bg-batcher-process-batch\",\n            )\n",
       "        async with aio.TaskGroup() as batches:\n            while True:\n                tasks = await self._get_next_batch()\n                batches.create_task(\n                    self._process_batch(tasks),\n                    name=\"async-bg-batcher-process-batch\",\n                )\n"))
+B('gather-excs-reraises-cancelled-children', ['C20'], ['C20-R3'],
+  (A, "    for res in await aio.gather(*aws, return_exceptions=True):\n        if isinstance(res, only):\n            yield res\n",
+      "    for res in await aio.gather(*aws, return_exceptions=True):\n        if isinstance(res, aio.CancelledError):\n            raise res\n        if isinstance(res, only):\n            yield res\n"))
+B('gather-excs-default-filter-narrowed', ['C20'], ['C20-R3'],
+  (A, "    only: Type[E] = BaseException,  # type: ignore # MyPy bug\n", "    only: Type[E] = Exception,  # type: ignore # MyPy bug\n"))
+B('parse-escalates-warnings', ['C19'], ['C19-R4'],
+  (P, "            try:\n                return parse(x)\n", "            try:\n                import warnings\n                with warnings.catch_warnings():\n                    warnings.simplefilter('error', SyntaxWarning)\n                    return parse(x)\n"))
+B('async-bridge-pool-joined-before-the-loop', ['C16'], ['C16-TA6'],
+  (A, "        future = loop.run_in_executor(pool, _queue_elements)\n        while (i := await q.get()) is not _DONE:\n            yield i  # type: ignore\n        await future  # Bubble any errors\n",
+      "        future = loop.run_in_executor(pool, _queue_elements)\n    while (i := await q.get()) is not _DONE:\n        yield i  # type: ignore\n    await future  # Bubble any errors\n"))
+B('sync-bridge-aiter-outside-the-try', ['C16'], ['C16-TA1'],
+  (A, "    async def _queue_elements() -> None:\n        try:\n            async for x in iterable:\n", "    async def _queue_elements() -> None:\n        elements = iterable.__aiter__()\n        try:\n            async for x in elements:\n"))
+B('loop-stopper-gives-up-after-a-while', ['C17'], ['C17-R6'],
+  (A, "        future.result()  # Wait for loop to exit and reveal errors\n", "        try:\n            future.result(5)\n        except Exception:\n            logger.warning('loop %r did not stop in time', loop)\n"))
+B('split-pulls-under-a-lock', ['C18'], ['C18-R8'],
+  (I, "from itertools import tee, compress\n", "from itertools import tee, compress\nfrom threading import RLock\n"),
+  (I, "def exhaust(", "def _synchronized(it: Any, lock: Any) -> Any:\n    with lock:\n        for value in it:\n            yield value\n\n\n_PULLS = RLock()\n\n\ndef exhaust("))
+B('bat-batch-of-one-runs-in-the-caller', ['C09', 'C04'], ['C09-R5', 'C04-B8'],
+  (A, "        await self._queue.put((key, arg, fut))\n", "        if self.max_batch_size > 1:\n            self._queue.put_nowait((key, arg, fut))\n        else:\n            await self._process_batch([(key, arg, fut)])\n"))
